@@ -163,6 +163,28 @@ Section Parser.
 
   Inductive xr := XFatal (evs : list event) | XOk (evs : list event) (t : text) (acc : Z).
 
+  (** the replacement text of an internal entity: its literal text, with every
+      reference in it expanded by [rec] and checked against the guard *)
+  Fixpoint go_pieces (rec : Z -> Z -> xr) (ps : list piece) (acc : Z) : xr :=
+    match ps with
+    | [] => XOk [] [] acc
+    | PText t :: r =>
+        match go_pieces rec r (acc + len t) with
+        | XFatal e => XFatal e
+        | XOk e t' a => XOk e (t ++ t') a
+        end
+    | PRef m :: r =>
+        match rec m acc with
+        | XFatal e => XFatal e
+        | XOk e1 t1 a1 =>
+            if amp_exceeded (a1 + 20) then XFatal e1 else
+            match go_pieces rec r (a1 + 20) with
+            | XFatal e => XFatal (e1 ++ e)
+            | XOk e2 t2 a2 => XOk (e1 ++ e2) (t1 ++ t2) a2
+            end
+        end
+    end.
+
   (** full replacement text of &n;.  [acc] is libxml2's running total of
       entity expansion (text produced plus a fixed cost of 20 per reference),
       checked against the amplification guard at every reference, so an
@@ -194,26 +216,7 @@ Section Parser.
                 | (e, LGot (RDtd _ _)) => XFatal e
                 end
             end
-        | Some (EInt ps) =>
-            (fix go (ps : list piece) (acc : Z) : xr :=
-               match ps with
-               | [] => XOk [] [] acc
-               | PText t :: r =>
-                   match go r (acc + len t) with
-                   | XFatal e => XFatal e
-                   | XOk e t' a => XOk e (t ++ t') a
-                   end
-               | PRef m :: r =>
-                   match expand inattr f (n :: path) m acc with
-                   | XFatal e => XFatal e
-                   | XOk e1 t1 a1 =>
-                       if amp_exceeded (a1 + 20) then XFatal e1 else
-                       match go r (a1 + 20) with
-                       | XFatal e => XFatal (e1 ++ e)
-                       | XOk e2 t2 a2 => XOk (e1 ++ e2) (t1 ++ t2) a2
-                       end
-                   end
-               end) ps acc
+        | Some (EInt ps) => go_pieces (fun m a => expand inattr f (n :: path) m a) ps acc
         end
     end.
 
@@ -289,7 +292,22 @@ Section Parser.
         else WOk e (a1 + 20) (if is_rno (resolve_entities c) then NRef n else NText t)
     end.
 
-  Fixpoint walk (depth : Z) (n : node) (acc : Z) : wr node :=
+  Definition walk_list (rec : node -> Z -> wr node) : list node -> Z -> wr (list node) :=
+    fix wl (ks : list node) (acc : Z) : wr (list node) :=
+    match ks with
+    | [] => WOk [] acc []
+    | k :: r =>
+        match rec k acc with
+        | WFatal e => WFatal e
+        | WOk e a k' =>
+            match wl r a with
+            | WFatal e' => WFatal (e ++ e')
+            | WOk e' a' r' => WOk (e ++ e') a' (k' :: r')
+            end
+        end
+    end.
+
+  Fixpoint walk (depth : Z) (n : node) (acc : Z) {struct n} : wr node :=
     match n with
     | NText t => WOk [] acc (NText t)
     | NRef r => walk_ref r acc
@@ -304,23 +322,18 @@ Section Parser.
         match walk_attrs attrs acc with
         | WFatal e => WFatal e
         | WOk e1 a1 attrs' =>
-            match (fix go (ks : list node) (acc : Z) : wr (list node) :=
-                     match ks with
-                     | [] => WOk [] acc []
-                     | k :: r =>
-                         match walk (depth + 1) k acc with
-                         | WFatal e => WFatal e
-                         | WOk e a k' =>
-                             match go r a with
-                             | WFatal e' => WFatal (e ++ e')
-                             | WOk e' a' r' => WOk (e ++ e') a' (k' :: r')
-                             end
-                         end
-                     end) kids a1 with
+            match walk_list (fun k a => walk (depth + 1) k a) kids a1 with
             | WFatal e2 => WFatal (e1 ++ e2)
             | WOk e2 a2 kids' => WOk (e1 ++ e2) a2 (NElem tag (add_defaults tag attrs') kids')
             end
         end
+    end.
+
+  Fixpoint subst_pieces (rec : Z -> text) (ps : list piece) : text :=
+    match ps with
+    | [] => []
+    | PText t :: r => t ++ subst_pieces rec r
+    | PRef m :: r => rec m ++ subst_pieces rec r
     end.
 
   (** plain substitution of internal general entities *)
@@ -330,13 +343,7 @@ Section Parser.
     | S f =>
         if memz n path then [] else
         match lookup_ent n g with
-        | Some (EInt ps) =>
-            (fix go (ps : list piece) : text :=
-               match ps with
-               | [] => []
-               | PText t :: r => t ++ go r
-               | PRef m :: r => subst f (n :: path) m ++ go r
-               end) ps
+        | Some (EInt ps) => subst_pieces (subst f (n :: path)) ps
         | _ => []
         end
     end.
@@ -403,8 +410,7 @@ Section View.
     | NNest k tag kid => TNest k tag :: flat kid ++ [TNestEnd]
     | NElem tag attrs kids =>
         TOpen tag :: map (fun a => TAttr (fst a) (aget (snd a))) attrs
-          ++ (fix go (ks : list node) : list tok :=
-                match ks with [] => [] | k :: r => flat k ++ go r end) kids
+          ++ flat_map flat kids
           ++ [TClose]
     end.
 End View.
@@ -516,5 +522,5 @@ Fixpoint depth_of (n : node) : Z :=
   match n with
   | NText _ | NRef _ => 0
   | NNest k _ kid => k + depth_of kid
-  | NElem _ _ kids => 1 + fold_right (fun k m => Z.max (depth_of k) m) 0 kids
+  | NElem _ _ kids => 1 + fold_right Z.max 0 (map depth_of kids)
   end.
